@@ -290,8 +290,19 @@ quat_lattice_lll(ibz_mat_4x4_t *red, const quat_lattice_t *lattice, const ibz_t 
       }
       logdet += max;
     }
-    // Set fp precision
-    mpf_set_default_prec(2*logdet);
+    // Reject rank-deficient input exactly: the float test on B[k] below is only hit when the
+    // floating-point Gram-Schmidt happens to be exact, and B[0] is never tested at all.
+    {
+        ibz_t det;
+        ibz_init(&det);
+        int full_rank = ibz_mat_4x4_inv_with_det_as_denom(NULL, &det, &lattice->basis);
+        ibz_finalize(&det);
+        if (!full_rank)
+            return -1;
+    }
+    // Set fp precision: the Gram-Schmidt norms for the form (1,1,q,q) range over a factor of about
+    // q^2 * 2^(2*logdet), so the size of q has to enter the precision as well.
+    mpf_set_default_prec(2 * logdet + 4 * ibz_bitsize(q) + 128);
     
     mpf_init(tmp);
     mpz_init(tmp_z);
